@@ -499,6 +499,7 @@ fn source_job_scenario(kind: SrcJob, layout: crate::kit::Layout, bound: usize) -
         nontrivial: true,
         unbounded: false,
         loop_body: false,
+        sometimes: vec![],
     }
 }
 
@@ -560,6 +561,7 @@ fn channel_source_scenario(n: usize, p: u64, bound: usize) -> Scenario {
         nontrivial: n > 1,
         unbounded: false,
         loop_body: false,
+        sometimes: vec![],
     }
 }
 
